@@ -465,6 +465,39 @@ TEMPLATES = [
                dict(name=C("a"), kind=r.choice(["reg", "dir", "sym", "fifo", "lnk"]), data=b"2", link=r.choice(["../../../o/victim", C("a"), C("x")]), mode=0o600)],
     # chmod of outside directory through a directory member
     lambda r: [dict(name=C("s"), kind="sym", link=r.choice(["../../../o/vdir", "..", "../../../o"])), dict(name=C("s"), kind="dir", mode=0o777)],
+    # re-targeting: a name that members were already extracted through appears again with another target / kind
+    lambda r: [dict(name=C("real"), kind="dir", mode=0o755), dict(name=C("lnk"), kind="sym", link="real"),
+               dict(name=C("lnk/a"), kind="reg", data=b"fine"),
+               dict(name=C("lnk"), kind="sym", link=r.choice(["../../../o", "/o", "../..", "/", "../../../o/vdir", "/p/q"])),
+               dict(name=C(r.choice(["lnk/pwned", "lnk/victim", "lnk/inner", "lnk/a", "lnk/sub/deep", "lnk/sibling"])),
+                    kind=r.choice(["reg", "reg", "dir", "sym", "fifo"]), data=b"owned\n", link="/o/victim", mode=0o4777)],
+    lambda r: [dict(name=C("real"), kind="dir", mode=0o755), dict(name=C("lnk"), kind="sym", link="real"),
+               dict(name=C("lnk/a"), kind="reg", data=b"fine"),
+               dict(name=C("lnk"), kind="sym", link=r.choice(["../../../o", "/o"])),
+               dict(name=C("h"), kind="lnk", link=C(r.choice(["lnk/victim", "lnk/hl1", "lnk/a"])), mode=0o666),
+               dict(name=C("h"), kind="reg", data=b"owned\n", mode=0o666)],
+    # a directory members were extracted into is followed by a symlink member of the same name (tarfile cannot unlink
+    # a directory), and a symlink is followed by a directory member of the same name (mkdir fails, chmod follows)
+    lambda r: [dict(name=C("d"), kind="dir", mode=0o755), dict(name=C("d/a"), kind="reg", data=b"1"),
+               dict(name=C("d"), kind="sym", link=r.choice(["../../../o", "/o", "x"])),
+               dict(name=C(r.choice(["d/victim", "d/b", "d/a"])), kind=r.choice(["reg", "dir", "lnk"]), data=b"owned\n", link=C("d/a"))],
+    lambda r: [dict(name=C("x"), kind="dir", mode=0o755), dict(name=C("s"), kind="sym", link="x"), dict(name=C("s/a"), kind="reg", data=b"1"),
+               dict(name=C("s"), kind="dir", mode=r.choice([0o700, 0o777])), dict(name=C("s/b"), kind="reg", data=b"2"),
+               dict(name=C("s"), kind="sym", link=r.choice(["../../../o", "/o/vdir"])), dict(name=C("s/c"), kind=r.choice(["reg", "dir"]), data=b"owned\n")],
+    # prefix chains: a/b/... where a is re-targeted after a/b was used
+    lambda r: [dict(name=C("in/b"), kind="dir", mode=0o755), dict(name=C("a"), kind="sym", link="in"), dict(name=C("a/b/f"), kind="reg", data=b"1"),
+               dict(name=C("a"), kind="sym", link=r.choice(["../../..", "/", "../../../o"])),
+               dict(name=C(r.choice(["a/b/g", "a/o/victim", "a/vdir/inner", "a/b", "a/victim", "a/p/q/sibling"])),
+                    kind=r.choice(["reg", "dir", "sym", "lnk"]), data=b"owned\n", link=r.choice(["/o/victim", C("a/b/f")]), mode=0o777)],
+    # third time lucky: target flips outside and back inside
+    lambda r: [dict(name=C("real"), kind="dir", mode=0o755), dict(name=C("l"), kind="sym", link="real"), dict(name=C("l/a"), kind="reg", data=b"1"),
+               dict(name=C("l"), kind="sym", link="../../../o"), dict(name=C("l"), kind="sym", link=r.choice(["real", "../../../o", "/p"])),
+               dict(name=C(r.choice(["l/victim", "l/b", "l/victim2"])), kind="reg", data=b"owned\n")],
+    # duplicates of every kind
+    lambda r: [dict(name=C("a"), kind="reg", data=b"1", mode=0o600), dict(name=C("a"), kind="reg", data=b"22", mode=0o644),
+               dict(name=C("d"), kind="dir", mode=0o700), dict(name=C("d"), kind="dir", mode=0o755),
+               dict(name=C("s"), kind="sym", link="a"), dict(name=C("s"), kind="sym", link="d"), dict(name=C("s/x"), kind="reg", data=b"3"),
+               dict(name=C("h"), kind="lnk", link=C("a")), dict(name=C("h"), kind="lnk", link=C("a"))][:r.choice([5, 7, 8, 9])],
     # the workspace itself
     lambda r: [dict(name=r.choice(["content/", "content//", "content/."]), kind=r.choice(["dir", "sym", "reg", "lnk"]), link=r.choice([".", C("a"), "/o"]), mode=0o700, data=b"z")],
 ]
